@@ -166,6 +166,34 @@ Proof.
   rewrite Ec. destruct (c <? n * P); reflexivity.
 Qed.
 
+(* the same function as C09's model of GetZkpThreshold (validated against the keeper on every C09 case) *)
+Lemma zkp_threshold_c_is_tally rf n nact : 0 < rf -> 0 <= n <= N_MAX -> 0 < nact ->
+  zkp_threshold_c rf n nact = of_opt (Tally.zkp_threshold rf n nact).
+Proof.
+  intros Hrf Hn Hna. unfold zkp_threshold_c, Tally.zkp_threshold.
+  destruct (Z.eqb_spec nact 0); [lia|].
+  destruct (dmul_int rf n) as [a|] eqn:Ea; cbn [obind]; [|reflexivity].
+  destruct (dquo_int a nact) as [b|] eqn:Eb; cbn [obind]; [|reflexivity].
+  destruct (dceil b) as [c|] eqn:Ec; cbn [obind]; [|reflexivity].
+  destruct (Z.ltb_spec c (n * P)) as [Hlt|Hge]; [|reflexivity].
+  (* 0 <= c < n * P: the truncation fits an int64 *)
+  apply dmul_int_some in Ea. subst a.
+  unfold dquo_int in Eb. destruct (nact =? 0); [discriminate|]. injection Eb as <-.
+  assert (Hb0 : 0 <= Z.quot (rf * n) nact) by (apply Z.quot_pos; nia).
+  unfold dceil in Ec. apply chk_some in Ec as [-> _].
+  assert (HP : 0 < P) by reflexivity.
+  set (b := Z.quot (rf * n) nact) in *.
+  assert (Hq0 : 0 <= Z.quot b P) by (apply Z.quot_pos; lia).
+  assert (Hc0 : 0 <= (if 0 <? Z.rem b P then Z.quot b P + 1 else Z.quot b P) * P).
+  { destruct (0 <? Z.rem b P); nia. }
+  set (c := (if 0 <? Z.rem b P then Z.quot b P + 1 else Z.quot b P) * P) in *.
+  pose proof (dtrunc_int_bracket c Hc0). pose proof (dtrunc_int_nonneg c Hc0).
+  assert (Ht : (dtrunc_int c <=? Tally.INT64_MAX) && (- Tally.INT64_MAX - 1 <=? dtrunc_int c) = true).
+  { apply andb_true_intro. split; apply Z.leb_le; unfold Tally.INT64_MAX; [|lia].
+    assert (dtrunc_int c * P < 2 ^ 63 * P) by (unfold N_MAX in *; nia). unfold P in *. lia. }
+  rewrite Ht. reflexivity.
+Qed.
+
 Lemma slash_threshold_total sft cc : 0 <= sft <= P -> 0 <= cc < 2 ^ 63 -> Tally.slash_threshold sft cc <> None.
 Proof.
   intros Hs Hc. unfold Tally.slash_threshold.
